@@ -417,6 +417,34 @@ func sampleEvents() []vaxis.Key {
 	return evs
 }
 
+// refMatches transcribes the six rules documented on Key.Matches (lock bits removed on both sides).
+func refMatches(k vaxis.Key, key rune, mods vaxis.ModifierMask) bool {
+	mods &^= locks
+	kMods := k.Modifiers &^ locks
+	noShiftK, noShiftB := kMods&^vaxis.ModShift, mods&^vaxis.ModShift
+	switch {
+	case k.Keycode == key && mods == kMods: // 1
+		return true
+	case k.Text == string(key) && mods == kMods: // 2
+		return true
+	case k.ShiftedCode == key && mods == noShiftK: // 3
+		return true
+	case k.BaseLayoutCode == key && mods == kMods: // 4
+		return true
+	}
+	if !unicode.IsLetter(key) && unicode.IsGraphic(key) { // 5 and its shifted twin
+		if (k.Keycode == key || k.ShiftedCode == key) && noShiftK == noShiftB {
+			return true
+		}
+	}
+	if mods&vaxis.ModShift != 0 && unicode.IsLower(key) { // the Shift+lowercase form of a binding
+		if k.Text == string(unicode.ToUpper(key)) && noShiftK == noShiftB {
+			return true
+		}
+	}
+	return false
+}
+
 func matchSweep(idx, n int) {
 	binds := bindKeys()
 	evs := sampleEvents()
@@ -441,6 +469,10 @@ func matchSweep(idx, n int) {
 				mm := vaxis.ModifierMask(m)
 				r.Count("match_pairs", 1)
 				got := k.Matches(b.r, mm)
+				if want := refMatches(k, b.r, mm); got != want {
+					r.Violation(fmt.Sprintf("C09|match|rules|got=%v", got), ei, detail{Part: "match", Input: keyStr(k), Got: fmt.Sprintf("Matches(%q, %s) = %v", b.r, modString(mm), got),
+						Why: "the verdict differs from the six documented matching rules"})
+				}
 				if got && (k.Modifiers&nonShift) != (mm&nonShift) {
 					r.Violation("C09|match|unsound-modifiers", ei, detail{Part: "match", Input: keyStr(k), Got: fmt.Sprintf("Matches(%q, %s) = true", b.r, modString(mm)),
 						Why: "a binding matched although its Ctrl/Alt/Super/Hyper/Meta modifiers differ from the event's"})
@@ -572,7 +604,7 @@ func main() {
 	n := r.Get("decodes") + r.Get("match_pairs") + r.Get("cross_chords")
 	r.Finish(explore.Coverage{
 		States: -1, Transitions: n, Traces: n, Evaluations: n,
-		Rule: "decoding, through bytes -> ansi.Parser -> input loop of a real Vaxis on a fake console: every ASCII byte and 24 non-ASCII scalars raw; ESC + every byte 0x30-0x7F that stays in the escape state; SS3 keys; CSI 1;m X for 11 finals x all 256 modifier masks; CSI n;m ~ for 30 numbers x 256 masks; CSI 27;m;k ~; CSI u for 128 ASCII codes + 24 non-ASCII + every functional key of the kitty specification x 256 masks with the optional fields (shifted, base, event type, text) rotating so that every combination meets every mask; compared with an independent decoder. Matching: ~5000 decoded events x 138 binding keys x 256 masks: own-binding completeness, soundness on Ctrl/Alt/Super/Hyper/Meta, lock insensitivity, MatchString parsing. Cross-protocol: 95 chords under both encodings: String() and match sets. distinct = inputs/events/chords that passed",
+		Rule: "decoding, through bytes -> ansi.Parser -> input loop of a real Vaxis on a fake console: every ASCII byte and 24 non-ASCII scalars raw; ESC + every byte 0x30-0x7F that stays in the escape state; SS3 keys; CSI 1;m X for 11 finals x all 256 modifier masks; CSI n;m ~ for 30 numbers x 256 masks; CSI 27;m;k ~; CSI u for 128 ASCII codes + 24 non-ASCII + every functional key of the kitty specification x 256 masks with the optional fields (shifted, base, event type, text) rotating so that every combination meets every mask; compared with an independent decoder. Matching: ~5000 decoded events x 138 binding keys x 256 masks: agreement with a transcription of the six documented matching rules for every (event, binding, mask), own-binding completeness, soundness on Ctrl/Alt/Super/Hyper/Meta, lock insensitivity, MatchString parsing. Cross-protocol: 95 chords under both encodings: String() and match sets. distinct = inputs/events/chords that passed",
 		Exhaustive: true,
 		Assumptions: []string{"0x08/0x09/0x0D/0x1B decode to Backspace/Tab/Enter/Escape (the usual reading of the ambiguous legacy bytes)",
 			"ESC + upper-case letter may be reported with either normalisation (Alt+Shift vs Alt+CapsLock cannot be told apart)",
